@@ -70,7 +70,8 @@ Proof.
       split; [destruct ds; discriminate|]. split.
       * rewrite forallb_app, E3. cbn [forallb andb]. unfold ascii_digit, digit_char.
         rewrite andb_true_r, andb_true_iff, !N.leb_le. clear - Hr. remember (n mod 10) as r. lia.
-      * unfold dec_value in *. rewrite dec_value_from_app, E4. unfold digit_char. lia.
+      * unfold dec_value in *. rewrite dec_value_from_app, E4. unfold digit_char.
+        clear - Hdm Hr. remember (n mod 10) as r. remember (n / 10) as q. lia.
 Qed.
 
 Lemma pos_size_nat_gt p : N.pos p < 2 ^ N.of_nat (Pos.size_nat p).
@@ -94,3 +95,145 @@ Proof.
   destruct (n_to_dec_fuel_spec (N.size_nat n) n [] Hn) as (ds & E1 & E2 & E3 & E4).
   rewrite E1, app_nil_r. auto.
 Qed.
+
+(* ------------------------------------------------------------------ "%0.3i" *)
+
+Definition fmt03_check (c : N) : bool :=
+  match fmt03 c with
+  | [d1; d2; d3] =>
+      ascii_digit d1 && ascii_digit d2 && ascii_digit d3
+      && N.eqb (100 * (d1 - 48) + 10 * (d2 - 48) + (d3 - 48)) c
+      && match py_int (fmt03 c) with Some z => Z.eqb z (Z.of_N c) | None => false end
+  | _ => false
+  end.
+
+Definition bytes_all : list N := map N.of_nat (seq 0 256).
+
+Lemma in_bytes_all c : c < 256 -> In c bytes_all.
+Proof.
+  intros H. unfold bytes_all. apply in_map_iff. exists (N.to_nat c). split; [lia|].
+  apply in_seq. lia.
+Qed.
+
+Lemma fmt03_sweep : forallb fmt03_check bytes_all = true.
+Proof. vm_compute. reflexivity. Qed.
+
+Lemma fmt03_spec c : c < 256 ->
+  exists d1 d2 d3, fmt03 c = [d1; d2; d3]
+    /\ ascii_digit d1 = true /\ ascii_digit d2 = true /\ ascii_digit d3 = true
+    /\ 100 * (d1 - 48) + 10 * (d2 - 48) + (d3 - 48) = c
+    /\ py_int (fmt03 c) = Some (Z.of_N c).
+Proof.
+  intros H. pose proof fmt03_sweep as S. rewrite forallb_forall in S.
+  specialize (S c (in_bytes_all c H)). unfold fmt03_check in S.
+  destruct (fmt03 c) as [|d1 [|d2 [|d3 [|]]]] eqn:E; try discriminate.
+  destruct (py_int [d1; d2; d3]) as [z|]; [|rewrite andb_false_r in S; discriminate].
+  rewrite !andb_true_iff in S. destruct S as [[[[A B] C] D] F].
+  apply N.eqb_eq in D. apply Z.eqb_eq in F. subst z.
+  exists d1, d2, d3. auto 10.
+Qed.
+
+(* ------------------------------------------------------------------ sums *)
+
+Lemma fold_add_byte_sum s a : fold_left N.add s a = a + byte_sum s.
+Proof. revert a. induction s as [|c s IH]; intros a; cbn [fold_left byte_sum]; [lia|]. rewrite IH. lia. Qed.
+
+Lemma sum_codes_byte_sum s : sum_codes s = byte_sum s.
+Proof. unfold sum_codes. rewrite fold_add_byte_sum. lia. Qed.
+
+Lemma byte_sum_app a b : byte_sum (a ++ b) = byte_sum a + byte_sum b.
+Proof. induction a as [|c a IH]; cbn [app byte_sum]; [lia|]. rewrite IH. lia. Qed.
+
+Lemma sum_codes_app a b : sum_codes (a ++ b) = sum_codes a + sum_codes b.
+Proof. rewrite !sum_codes_byte_sum. apply byte_sum_app. Qed.
+
+Lemma sum_codes_cons c s : sum_codes (c :: s) = c + sum_codes s.
+Proof. rewrite !sum_codes_byte_sum. reflexivity. Qed.
+
+(* ------------------------------------------------------------------ join *)
+
+Lemma join_cons sep p ps : ps <> [] -> join sep (p :: ps) = p ++ sep ++ join sep ps.
+Proof. destruct ps; [congruence|reflexivity]. Qed.
+
+Lemma length_join sep ps :
+  length (join sep ps) = (list_sum (map (@length N) ps) + length sep * (length ps - 1))%nat.
+Proof.
+  induction ps as [|p ps IH]; [cbn; lia|].
+  destruct ps as [|p' ps].
+  - cbn. lia.
+  - rewrite join_cons by discriminate. rewrite !app_length, IH. cbn [map list_sum length]. lia.
+Qed.
+
+(* ------------------------------------------------------------------ utf-8 on ASCII *)
+
+Lemma utf8_ascii s : forallb (fun c => c <? 128) s = true -> utf8 s = Some s.
+Proof.
+  induction s as [|c s IH]; [reflexivity|]. cbn [forallb utf8]. rewrite andb_true_iff.
+  intros [A B]. unfold utf8_cp. rewrite A, (IH B). reflexivity.
+Qed.
+
+Lemma ascii_is_byte s : forallb (fun c => c <? 128) s = true -> forallb is_byte s = true.
+Proof.
+  rewrite !forallb_forall. intros H c Hc. specialize (H c Hc). unfold is_byte.
+  apply N.ltb_lt in H. apply N.ltb_lt. lia.
+Qed.
+
+(* ------------------------------------------------------------------ reference framer readers *)
+
+Lemma expect_app p s : expect p (p ++ s) = Some s.
+Proof. induction p as [|x p IH]; [destruct s; reflexivity|]. cbn. rewrite N.eqb_refl. exact IH. Qed.
+
+Lemma expect_inv p : forall s r, expect p s = Some r -> s = p ++ r.
+Proof.
+  induction p as [|x p IH]; intros s r H.
+  - destruct s; cbn in H; congruence.
+  - destruct s as [|y s]; cbn in H; [discriminate|].
+    destruct (N.eqb x y) eqn:E; [|discriminate]. apply N.eqb_eq in E. subst y.
+    cbn. f_equal. now apply IH.
+Qed.
+
+Lemma take_field_app a r : ~ In 1 a -> take_field (a ++ 1 :: r) = Some (a, r).
+Proof.
+  induction a as [|c a IH]; intros H; [reflexivity|]. cbn [app take_field].
+  destruct (N.eqb c 1) eqn:E.
+  - apply N.eqb_eq in E. subst c. exfalso. apply H. now left.
+  - rewrite IH; [reflexivity|]. intros F. apply H. now right.
+Qed.
+
+Lemma take_field_inv : forall s v r, take_field s = Some (v, r) -> s = v ++ 1 :: r /\ ~ In 1 v.
+Proof.
+  induction s as [|c s IH]; intros v r H; [discriminate|]. cbn [take_field] in H.
+  destruct (N.eqb c 1) eqn:E.
+  - apply N.eqb_eq in E. subst c. inversion H. subst. split; [reflexivity|]. intros [].
+  - destruct (take_field s) as [[v' r']|] eqn:T; [|discriminate]. inversion H. subst.
+    destruct (IH _ _ eq_refl) as [-> N1]. split; [reflexivity|].
+    intros [F|F]; [subst c; discriminate|auto].
+Qed.
+
+Lemma digits_no_soh ds : forallb ascii_digit ds = true -> ~ In 1 ds.
+Proof.
+  rewrite forallb_forall. intros H F. specialize (H 1 F). discriminate.
+Qed.
+
+Lemma ascii_digit_range c : ascii_digit c = true <-> 48 <= c <= 57.
+Proof. unfold ascii_digit. rewrite andb_true_iff, !N.leb_le. tauto. Qed.
+
+Lemma ends_with_soh_app a : ends_with_soh (a ++ [1]) = true.
+Proof.
+  induction a as [|c a IH]; [reflexivity|]. cbn [app ends_with_soh].
+  destruct (a ++ [1]) eqn:E; [destruct a; discriminate|]. exact IH.
+Qed.
+
+Lemma ends_with_soh_inv s : ends_with_soh s = true -> exists b0, s = b0 ++ [1].
+Proof.
+  induction s as [|c s IH]; [discriminate|]. cbn [ends_with_soh].
+  destruct s as [|c' s].
+  - intros H. apply N.eqb_eq in H. subst. now exists [].
+  - intros H. destruct (IH H) as [b0 E]. exists (c :: b0). rewrite E. reflexivity.
+Qed.
+
+Lemma firstn_app_exact {A} (a b : list A) : firstn (length a) (a ++ b) = a.
+Proof. rewrite firstn_app, Nat.sub_diag, firstn_all. cbn. apply app_nil_r. Qed.
+
+Lemma skipn_app_exact {A} (a b : list A) : skipn (length a) (a ++ b) = b.
+Proof. rewrite skipn_app, Nat.sub_diag, skipn_all. reflexivity. Qed.
